@@ -196,10 +196,14 @@ func (r *Runner) lookupVar(name string) expand.Variable {
 		} else {
 			vr.Str = "gosh"
 		}
-	case "1", "2", "3", "4", "5", "6", "7", "8", "9":
-		if i := int(name[0] - '1'); i < len(r.Params) {
+	default:
+		// Positional parameters, including those with multiple digits like ${10}.
+		if name[0] < '1' || name[0] > '9' {
+			break
+		}
+		if i, err := strconv.Atoi(name); err == nil && i <= len(r.Params) {
 			vr.Kind = expand.String
-			vr.Str = r.Params[i]
+			vr.Str = r.Params[i-1]
 		}
 	}
 	if vr.Kind != expand.Unknown {
